@@ -328,12 +328,18 @@ def rule_sib_cb(ctx: Ctx) -> None:
         return out, (rets[0].replace(f'.then({h.name})', '.then(CALLBACK)') if rets else '')
     ca, ra = cb_norm(a)
     cbb, rb = cb_norm(b)
-    ctx.check(ca == cbb, 'SIB-CB', b, 'callbacks agree', 'callback bodies', f'the bucketed post-processing {cbb} differs from the unbucketed one {ca}', b.node)
+    # the two callbacks are compared by value in the four worlds (average, symmetric), not by their text
+    from kfv.rules.coh_rules import callback_worlds
+    wa, wb = callback_worlds(p, a), callback_worlds(p, b)
+    diff = [(k, wa[k][0], wb[k][0]) for k in sorted(wa) if wa[k][0] != wb[k][0]]
+    ctx.check(not diff, 'SIB-CB', b, 'callbacks agree in every (average, symmetric) world', 'callback bodies',
+              'the bucketed post-processing differs from the unbucketed one: ' + '; '.join(f'average={k[0]}, symmetric={k[1]}: {y} vs {x}' for k, x, y in diff), b.node)
     ctx.check(ra.endswith('.then(CALLBACK)') and rb.endswith('.then(CALLBACK)'), 'SIB-CB', b, 'both return future.then(<their callback>)', 'then', f'returned futures: {ra} / {rb}', b.node)
-    want = ['t=VALUE', 'ifaverage:t=1/get_world_size(group)*t', 'ifsymmetric:t=fill_triu(shape,t)', 'returnt']
-    alt = ['t=VALUE', 'ifaverage:t=t/get_world_size(group)', 'ifsymmetric:t=fill_triu(shape,t)', 'returnt']
-    ctx.check(cbb in (want, alt), 'SIB-CB', b, 'average by get_world_size(group), then refill the symmetric matrix', 'callback form',
-              f'bucketed post-processing is {cbb}; specified: {want}', b.node)
+    want = {(True, True): {'fill_triu(shape,VALUE*get_world_size(group)^-1)', 'fill_triu(shape,VALUE)*get_world_size(group)^-1'}, (True, False): {'VALUE*get_world_size(group)^-1'},
+            (False, True): {'fill_triu(shape,VALUE)'}, (False, False): {'VALUE'}}
+    bad = [(k, wb[k][0]) for k in sorted(wb) if wb[k][0] not in want[k]]
+    ctx.check(not bad, 'SIB-CB', b, 'average by get_world_size(group), refill the symmetric matrix', 'callback form',
+              'bucketed post-processing: ' + '; '.join(f'average={k[0]}, symmetric={k[1]} -> {v}' for k, v in bad) + '; specified: VALUE / get_world_size(group) when average, fill_triu(shape, .) when symmetric', b.node)
     # the future post-processed is the one add_tensor returned
     thens = [n for n in p.nodes(b) if isinstance(n, ast.Return) and n.value is not None and 'then(' in norm(n.value)]
     src = norm(thens[0].value.func.value) if thens and isinstance(thens[0].value, ast.Call) and isinstance(thens[0].value.func, ast.Attribute) else None
